@@ -60,10 +60,51 @@ func VerifC20Client() {
 		s := "native"
 		item["u"] = &mtypes.Item{S: &s}
 	})
+	removerRan := 0
+	c.GetNativeInterpreter().AddUpdater(vTbl, "REMOVE v SET w = :n", func(item, attrs map[string]*mtypes.Item) {
+		removerRan++
+		delete(item, "v")
+		item["w"] = attrs[":n"]
+	})
 	v, x := nd.StringN("v", 1), nd.StringN("x", 1)
 	nd.Assert(vPut(c, vItem{"p": vS("k"), "v": vS(v)}) == nil, "setup-put")
 
-	switch nd.Choice("op", 8) {
+	switch nd.Choice("op", 11) {
+	case 8: // a registered updater that removes an attribute: its whole mutation is what gets stored
+		_, err := c.UpdateItem(vCtx, &dynamodb.UpdateItemInput{TableName: aws.String(vTbl), Key: vItem{"p": vS("k")},
+			UpdateExpression: aws.String("REMOVE v SET w = :n"), ExpressionAttributeValues: vItem{":n": vS("z")}})
+		nd.Assert(err == nil, "C20-client-removing-update-noerr")
+		got, _ := vGet(c, vItem{"p": vS("k")})
+		nd.Assert(vSameItem(got, vItem{"p": vS("k"), "w": vS("z")}), "C20-client-updater-removal-stored")
+		if native {
+			nd.Reach("native-removing-updater")
+			nd.Assert(removerRan >= 1, "C20-client-removing-updater-ran")
+		}
+	case 9: // Query: registered key condition, unregistered filter - each expression is dispatched on its own
+		nd.Assert(vPut(c, vItem{"p": vS("k2"), "v": vS(v)}) == nil, "setup-put2")
+		out, err := c.Query(vCtx, &dynamodb.QueryInput{TableName: aws.String(vTbl), KeyConditionExpression: aws.String("p = :p"), FilterExpression: aws.String("v <> :x"),
+			ExpressionAttributeValues: vItem{":p": vS("k"), ":x": vS(x)}})
+		nd.Assert(err == nil, "C20-client-query2-noerr")
+		if err == nil && native {
+			nd.Reach("native-key-builtin-filter")
+			// the key matcher's verdict decides which items are candidates (both or none), the built-in filter the rest
+			want := 0
+			if keyVerdict && v != x {
+				want = 2
+			}
+			nd.Assert(len(out.Items) == want, "C20-client-key-matcher-and-builtin-filter-combine")
+			nd.Assert(keyRan >= 2 || !keyVerdict, "C20-client-key-matcher-asked-for-every-item")
+			nd.Assert(filterRan == 0, "C20-client-unregistered-filter-never-dispatches")
+		}
+	case 10: // Scan-like Query: unregistered key condition (built-in), registered filter
+		out, err := c.Query(vCtx, &dynamodb.QueryInput{TableName: aws.String(vTbl), KeyConditionExpression: aws.String("p = :k"), FilterExpression: aws.String("v = :x"),
+			ExpressionAttributeValues: vItem{":k": vS("k"), ":x": vS(x)}})
+		nd.Assert(err == nil, "C20-client-query3-noerr")
+		if err == nil && native {
+			nd.Reach("builtin-key-native-filter")
+			nd.Assert(filterRan >= 1, "C20-client-filter-matcher-ran-after-a-key-condition-without-matcher")
+			nd.Assert((len(out.Items) == 1) == verdict, "C20-client-filter-verdict-decides-after-builtin-key-condition")
+		}
 	case 0: // registered condition text (with extra blanks)
 		_, err := c.PutItem(vCtx, &dynamodb.PutItemInput{TableName: aws.String(vTbl), Item: vItem{"p": vS("k"), "v": vS("new")},
 			ConditionExpression: aws.String("  v =  :x "), ExpressionAttributeValues: vItem{":x": vS(x)}})
